@@ -447,10 +447,28 @@ impl TypeChecker {
         });
     }
 
+    /// Remember which parameters of a callable declared here have a default value (see `param_defaults`).
+    fn record_param_defaults(&mut self, callable: String, params: &[Spanned<Param>]) {
+        let defaults = params
+            .iter()
+            .filter(|p| p.node.default.is_some())
+            .map(|p| p.node.name.clone())
+            .collect();
+        self.param_defaults.insert(callable, defaults);
+    }
+
+    /// `record_param_defaults` for every method a type declares.
+    fn record_method_param_defaults(&mut self, type_name: &str, methods: &[Spanned<MethodDecl>]) {
+        for m in methods {
+            self.record_param_defaults(format!("{}.{}", type_name, m.node.name), &m.node.params);
+        }
+    }
+
     /// Register a model declaration with its fields, methods, and derived traits.
     fn collect_model(&mut self, model: &ModelDecl, span: Span) {
         let fields = collect_fields(&model.fields, &self.symbols);
         let mut methods = collect_methods(&model.methods, &self.symbols);
+        self.record_method_param_defaults(&model.name, &model.methods);
 
         // Inject JSON methods based on derives
         let derives = Self::extract_derive_names(&model.decorators);
@@ -482,6 +500,16 @@ impl TypeChecker {
 
         // Add own methods (can override inherited ones)
         methods.extend(collect_methods(&class.methods, &self.symbols));
+        if let Some(parent_name) = &class.extends {
+            let prefix = format!("{}.", parent_name);
+            let inherited: Vec<(String, HashSet<String>)> = self
+                .param_defaults
+                .iter()
+                .filter_map(|(k, v)| k.strip_prefix(&prefix).map(|m| (format!("{}.{}", class.name, m), v.clone())))
+                .collect();
+            self.param_defaults.extend(inherited);
+        }
+        self.record_method_param_defaults(&class.name, &class.methods);
 
         // Inject JSON methods based on derives
         let derives = Self::extract_derive_names(&class.decorators);
@@ -632,6 +660,7 @@ impl TypeChecker {
     fn collect_newtype(&mut self, nt: &NewtypeDecl, span: Span) {
         let underlying = resolve_type(&nt.underlying.node, &self.symbols);
         let methods = collect_methods(&nt.methods, &self.symbols);
+        self.record_method_param_defaults(&nt.name, &nt.methods);
 
         self.symbols.define(Symbol {
             name: nt.name.clone(),
@@ -683,6 +712,7 @@ impl TypeChecker {
             .map(|p| (p.node.name.clone(), resolve_type(&p.node.ty.node, &self.symbols)))
             .collect();
         let return_type = resolve_type(&func.return_type.node, &self.symbols);
+        self.record_param_defaults(func.name.clone(), &func.params);
 
         self.symbols.define(Symbol {
             name: func.name.clone(),
